@@ -29,9 +29,20 @@ def corpus():
     ]
 
 
+def art_cases(rng):
+    """album_art is a request like any other: when the connection ends in the middle of a transfer it resolves with the failure."""
+    out = []
+    for fault in (["e"], ["S*", "D5", "e"], ["G:" + hexs(b"what\n")], ["r"]):
+        pic = bytes(range(40))
+        labels = ["D0", "a1:" + hexs("foo.mp3")] + ["S*", "D0"] * rng.choice([3, 4, 5]) + fault + ["c2:" + L.spec("echo", "later"), "t200", "e", "t200"]
+        out.append((L.Sched(conf=L.conf(emb=pic, mime=b"image/png", limit=8), labels=labels, note="album_art: connection ends mid-transfer " + fault[-1][:1]),
+                    {"fault": "art", "requests": {}, "cancelled": set(), "notified": []}))
+    return out
+
+
 def gen(ctx):
     rng = ctx.rng
-    items = corpus()
+    items = corpus() + art_cases(rng)
     n = 200 if ctx.tier == "quick" else 4000
     for _ in range(n):
         labels, info, rid = L.gen_session(rng, rng.choice([0, 2, 6, 15, 40]), cancel=True)
@@ -91,6 +102,10 @@ def run(ctx, only=None):
             v.append("the client panicked: " + r["impl_raw"][:300])
         res = t.results()
         evs = [x for _, x in t.events()]
+        if info and info["fault"] == "art":
+            got = res.get(1, (None, "<never resolved>"))[1]
+            if not (got == "closed" or got.startswith("proto:")):
+                v.append(f"the connection ended in the middle of an album-art transfer, but album_art resolved with {got[:100]} instead of the failure")
         if info:
             kinds[info["fault"]] = kinds.get(info["fault"], 0) + 1
             pend = [rid for rid in info["requests"] if rid not in info["cancelled"]]
